@@ -77,6 +77,7 @@ func (g *G) ExpectCase() ExpectCase {
 		}
 		c.Steps = append(c.Steps, st)
 	}
+	pauses := 0
 	// a stream that mostly serves the expectations in order, with repeats, noise and gaps
 	for _, st := range c.Steps {
 		for _, o := range st.Outputs {
@@ -93,6 +94,11 @@ func (g *G) ExpectCase() ExpectCase {
 			}
 			if g.P(1, 5) {
 				c.Lines = append(c.Lines, map[string]interface{}{"noise": "not json {"})
+			}
+			if g.P(1, 4) && pauses < 3 {
+				// the subprocess writes in several bursts
+				pauses++
+				c.Lines = append(c.Lines, map[string]interface{}{"pause": 25})
 			}
 			if g.P(1, 4) {
 				c.Lines = append(c.Lines, map[string]interface{}{"json": DeepCopy(expectMsgs[g.Intn(len(expectMsgs))])})
